@@ -2,8 +2,12 @@
 (***************************************************************************)
 (* The native ONT ID contract of ontio/ontology                             *)
 (* (smartcontract/service/native/ontid: method.go, controller.go,           *)
-(* recovery.go, authentication.go, owner.go, group.go, utils.go), at a      *)
-(* height where the new-ONT-ID methods are registered.                      *)
+(* recovery.go, authentication.go, owner.go, group.go, utils.go, init.go),  *)
+(* at a height at or above the new-ONT-ID fork height (NewOntId = TRUE: all  *)
+(* methods registered, version-1 key records) or below it (NewOntId = FALSE: *)
+(* the methods of PostOnly are not registered = every call of them is an     *)
+(* error, and every key record is a version-0 owner record, which reads as   *)
+(* a publicKey-list key with authentication right).                          *)
 (* One action per contract method; the guard of an action is the method's   *)
 (* authorization rule, its effect the method's storage update.  Every       *)
 (* refusal is an error of the native call ("err": nothing is written).      *)
@@ -18,7 +22,8 @@
 (*   attrs  FIELD_ATTR: set of attribute keys                               *)
 (* A transaction carries a signer set S (a set of keys whose addresses      *)
 (* CheckWitness accepts).                                                   *)
-(* Properties (C45): OnlyAuthorized, RevokedFinal, RevokedEmpty.            *)
+(* Properties (C45): OnlyAuthorized, RevokedFinal, RevokedNotRegistered,     *)
+(* RevokedEmpty.                                                            *)
 (***************************************************************************)
 EXTENDS Naturals, Sequences, FiniteSets, TLC
 
@@ -28,7 +33,8 @@ CONSTANTS Ids, Keys, AttrNames,
           SgSets,       \* signer lists (sequences of [id, idx]) used as group proofs
           SignerSets,   \* transaction signer sets explored for the canonical attempts
           MaxOps, Acts,
-          InitStates
+          InitStates,
+          NewOntId      \* TRUE: block height >= config.GetNewOntIdHeight(); FALSE: below it
 
 VARIABLES ids, nops, act
 vars == <<ids, nops, act>>
@@ -69,7 +75,14 @@ MembersOK(g) == \A m \in Range(g.members) : m \in Ids /\ Valid(m) /\ Len(KL(m)) 
 
 HasKey(x, k) == \E i \in 1..Len(KL(x)) : KL(x)[i].key = k
 KeyPos(x, k) == CHOOSE i \in 1..Len(KL(x)) : KL(x)[i].key = k
-Appended(x, k, au) == [ids[x] EXCEPT !.keys = Append(@, [key |-> k, revoked |-> FALSE, auth |-> au, pklist |-> ~au])]
+\* insertPk(encId, pk, controller, isPkList, isAuthentication): below the fork height the two flags are not stored
+\* (owner record {key, revoked}; getAllPk_Version1 reads such a record as isPkList = isAuthentication = TRUE)
+PkRec(k, pl, au) == [key |-> k, revoked |-> FALSE, auth |-> (au \/ ~NewOntId), pklist |-> (pl \/ ~NewOntId)]
+Appended(x, k, au) == [ids[x] EXCEPT !.keys = Append(@, PkRec(k, ~au, au))]
+\* init.go RegisterIDContract: methods registered only at or above the fork height
+PostOnly == {"RemoveRecovery", "AddKeyIdx", "RemoveKeyIdx", "AddAttrIdx", "RemoveAttrIdx", "AddNewAuthKey", "SetAuthKey",
+             "RemoveAuthKey", "SetAuthKeyByCtrl"}
+Registered(name) == NewOntId \/ name \notin PostOnly
 RevokedAt(x, i) == [ids[x] EXCEPT !.keys[i].revoked = TRUE]
 AuthAt(x, i, b) == [ids[x] EXCEPT !.keys[i].auth = b]
 Live(x, i) == HasIdx(x, i) /\ ~KL(x)[i].revoked
@@ -77,13 +90,20 @@ Live(x, i) == HasIdx(x, i) /\ ~KL(x)[i].revoked
 Init == /\ ids \in InitStates /\ nops = 0 /\ act = [name |-> "Init"]
 Step(a) == nops < MaxOps /\ a.name \in Acts /\ nops' = nops + 1 /\ act' = a
 \* a method call: on success exactly identity x changes
-Do(a, x, ok, new) == IF ok THEN Step(a @@ [res |-> "ok"]) /\ ids' = [ids EXCEPT ![x] = new]
+Do(a, x, ok, new) == IF ok /\ Registered(a.name) THEN Step(a @@ [res |-> "ok"]) /\ ids' = [ids EXCEPT ![x] = new]
                      ELSE Step(a @@ [res |-> "err"]) /\ UNCHANGED ids
 A(name, x, S) == [name |-> name, id |-> x, signers |-> S]
 
 \* ------------------------------------------------------------------ registration
+\* The three registration entry points (regIDWithPublicKey, regIDWithAttributes, regIDWithController) are separate
+\* actions; each is attempted in every state of the identity (none, valid, revoked) and by every caller, and each
+\* has its own "already registered" guard: the state flag must be flag_not_exist (a revoked identity keeps
+\* flag_revoke for ever and is refused like a registered one).
 RegPk(x, k, S) == Do(A("RegPk", x, S) @@ [key |-> k], x, ids[x].st = "none" /\ k \in S,
-                     [NoneRec EXCEPT !.st = "valid", !.keys = <<[key |-> k, revoked |-> FALSE, auth |-> TRUE, pklist |-> TRUE]>>])
+                     [NoneRec EXCEPT !.st = "valid", !.keys = <<PkRec(k, TRUE, TRUE)>>])
+\* regIDWithAttributes: insertPk(.., isPkList = true, isAuthentication = false), then the attributes
+RegAttrs(x, k, as, S) == Do(A("RegAttrs", x, S) @@ [key |-> k, attrs |-> as], x, ids[x].st = "none" /\ k \in S,
+                            [NoneRec EXCEPT !.st = "valid", !.keys = <<PkRec(k, TRUE, FALSE)>>, !.attrs = as])
 RegCtrl(x, c, proof, S) == Do(A("RegCtrl", x, S) @@ [ctrl |-> c, proof |-> proof], x,
                               ids[x].st = "none" /\ ProofOK(c, proof, S),
                               [NoneRec EXCEPT !.st = "valid", !.ctrl = c])
@@ -183,6 +203,7 @@ More == nops < MaxOps
 Next ==
   \E x \in Ids :
     \/ More /\ \E k \in Keys : \E S \in Sig({k}, k = K0) : RegPk(x, k, S)
+    \/ More /\ \E k \in Keys, as \in SUBSET AttrNames : \E S \in Sig({k}, k = K0 /\ as = {}) : RegAttrs(x, k, as, S)
     \/ More /\ \E c \in Ctrls : \E p \in ProofsFor(c) :
           /\ c.kind = "id" => c.id # x
           /\ \E S \in Sig(PrKeys(p), c = CGroup(G0) /\ p = PR0(c)) : RegCtrl(x, c, p, S)
@@ -226,7 +247,7 @@ BodySat(c, S) == \/ (c.kind = "id" /\ c.id \in Ids /\ AnyKeyAuth(c.id, S))
 \* or recovery as configured
 Authorized(x, S) == AnyKeyAuth(x, S) \/ BodySat(ids[x].ctrl, S) \/ BodySat(ids[x].rec, S)
 \* registering x: witnessed by the key being registered, or by the controller being installed
-RegAuthorized(a, S) == \/ (a.name = "RegPk" /\ a.key \in S)
+RegAuthorized(a, S) == \/ (a.name \in {"RegPk", "RegAttrs"} /\ a.key \in S)
                        \/ (a.name = "RegCtrl" /\ BodySat(a.ctrl, S))
 TypeOK == \A x \in Ids : /\ ids[x].st \in {"none", "valid", "revoked"}
                          /\ \A i \in 1..Len(KL(x)) : KL(x)[i].key \in Keys
@@ -237,6 +258,11 @@ OnlyAuthorized == [][\A x \in Ids : ids'[x] # ids[x] =>
                            ELSE ids[x].st = "valid" /\ Authorized(x, act'.signers)]_vars
 \* C45: a revoked identity is never registered or modified again, and keeps nothing
 RevokedFinal == [][\A x \in Ids : ids[x].st = "revoked" => ids'[x] = ids[x]]_vars
+\* ... in particular through no registration entry point, whoever calls it (stated separately: vacuity guard for
+\* the class "registration attempted on a revoked identity")
+RegNames == {"RegPk", "RegAttrs", "RegCtrl"}
+RevokedNotRegistered == [][\A x \in Ids : (ids[x].st = "revoked" /\ act'.name \in RegNames /\ act'.id = x)
+                                             => (act'.res = "err" /\ ids' = ids)]_vars
 RevokedEmpty == \A x \in Ids : ids[x].st = "revoked" => ids[x] = RevokedRec
 NoneEmpty == \A x \in Ids : ids[x].st = "none" => ids[x] = NoneRec
 \* a key listed twice would make indexes ambiguous
